@@ -28,7 +28,9 @@ import (
 	"strings"
 	"time"
 	"errors"
+	"html"
 	"io"
+	"regexp"
 )
 
 type choiceRec struct {
@@ -452,6 +454,30 @@ func Request(method, target string, form url.Values, basicUser, basicPass string
 		r.Header.Set("Authorization", "Basic "+base64.StdEncoding.EncodeToString([]byte(basicUser+":"+basicPass)))
 	}
 	return r
+}
+
+var (
+	reFormAction = regexp.MustCompile(`<form method="post" action="([^"]*)">`)
+	reFormField  = regexp.MustCompile(`<input type="hidden" name="([^"]*)" value="([^"]*)" ?/>`)
+)
+
+// FormAction returns the (HTML-unescaped) action attribute of the form_post page.
+func FormAction(body string) (string, bool) {
+	m := reFormAction.FindStringSubmatch(body)
+	if m == nil {
+		return "", false
+	}
+	return html.UnescapeString(m[1]), true
+}
+
+// FormField returns the (HTML-unescaped) value of the hidden input called name.
+func FormField(body string, name string) (string, bool) {
+	for _, m := range reFormField.FindAllStringSubmatch(body, -1) {
+		if html.UnescapeString(m[1]) == name {
+			return html.UnescapeString(m[2]), true
+		}
+	}
+	return "", false
 }
 
 func Debugf(format string, args ...any) { res.Notes = append(res.Notes, fmt.Sprintf(format, args...)) }
